@@ -10,11 +10,284 @@ NEEDS_DRIVER = False
 LEVEL_TEXT = ("Kernel-`decide`d theorems over the host event list of step() regenerated from /repo on every run (every launch with its stack of host conditions): for EQUALITY, FRICTIONLOSS, LIMIT, "
               "CONTACT, GRAVITY, SPRING, ACTUATION, ENERGY the set of kernels launched only under the flag's condition is exactly the hand-transcribed set implementing that contribution; the whole "
               "constraint stage sits under CONSTRAINT and contains every row builder guarded by the finer flags; all sensor kernels sit under SENSOR; implicit Euler damping under EULERDAMP|DAMPER. "
-              "Flags tested inside kernels and the numerical effect are compared with mujoco.mj_step under random flag subsets (sampled).")
-LEVEL_NOTE = "C32_partial: in-kernel flag tests (REFSAFE, CLAMPCTRL, WARMSTART, MULTICCD, NATIVECCD, FILTERPARENT) and numerical equality are sampled. Trusted: Lean kernel, host-graph extractor."
-ASSUMPTIONS = ["oracle mujoco.mj_step with the same flags; tolerance 2e-3 relative on qacc/qpos/qvel, solver tolerance 1e-10, 100 iterations"]
+              "Flags tested inside kernels and the numerical effect are compared with MuJoCo (sampled) at two levels: (a) one mj_step under random flag subsets (qpos, qvel, act, sensordata, energy); "
+              "(b) per model a forward-level flag matrix: EVERY subset of {spring, damper, gravity} crossed with rotating other flags and energy on/off, comparing with mj_forward every output a flag "
+              "governs: qfrc_spring/damper/gravcomp/passive/bias/actuator/smooth, actuator_force, act_dot, qacc_smooth, d.energy, sensordata (incl. e_potential/e_kinetic, tendon and actuator sensors; "
+              "sentinel-filled so that a skipped stage is visible), constraint row counts and aref/D per row type, qacc/qfrc_constraint; models carry joint springs (linear and polynomial), fixed and "
+              "spatial tendon springs with dead band forced active in rotation, tendon dampers/limits/friction, gravcomp, activation dynamics.")
+LEVEL_NOTE = ("C32_partial: in-kernel flag tests (REFSAFE, CLAMPCTRL, WARMSTART, MULTICCD, NATIVECCD, FILTERPARENT) and numerical equality are sampled. Flex spring energy is outside the sampled models "
+              "(mujoco_warp has no flex term in energy_pos; flex passive forces belong to C40). INVDISCRETE is compared in C26. FILTERPARENT/MULTICCD/NATIVECCD are baked in by put_model and therefore only "
+              "covered by level (a) (flags given in the MJCF), all others also by toggling the flag on an existing Model (level b). hits 'flag-changes-reference:<flag>' count the models on which the flag "
+              "changes MuJoCo's own result (vacuity record). Trusted: Lean kernel, host-graph extractor.")
+ASSUMPTIONS = ["oracle mujoco.mj_step / mujoco.mj_forward with the same flags; tolerance 2e-3 relative on qacc/qpos/qvel, 2e-4 of the largest magnitude on smooth forces, 5e-5 on energy; solver tolerance 1e-10, 100 iterations",
+               "a deviation from MuJoCo that is already there with NO flag changed is not a flag effect: each compared element gets 3x its no-flag error as slack; outputs without a no-flag comparison "
+               "(solver-dependent outputs when the two collision stages disagree on contact points even with contacts disabled in a second baseline) are not compared (counted in hits)",
+               "MuJoCo reference evaluated on a fresh mjData per flag set (MuJoCo 3.13 caches energies through mjData.flg_energypos/flg_energyvel across calls)",
+               "with SENSOR disabled an all-zero sensordata is accepted (forward() clears sensordata before the skipped sensor stage, MuJoCo keeps the previous values); with ENERGY off and an energy sensor "
+               "present d.energy is not compared (recorded deviation C07-energy-flag-off)"]
 
 DISABLE = ["constraint", "equality", "frictionloss", "limit", "contact", "spring", "damper", "gravity", "clampctrl", "warmstart", "actuation", "refsafe", "sensor", "eulerdamp", "filterparent"]
+# flags that may be toggled on an existing Model (everything except those put_model bakes into the model)
+SWEEP_PASSIVE = ["spring", "damper", "gravity"]
+SWEEP_OTHERS = ["actuation", "sensor", "constraint", "equality", "frictionloss", "limit", "contact", "clampctrl", "refsafe", "warmstart", "eulerdamp"]
+
+# outputs of forward() compared in the flag matrix: name -> (site, relative tolerance w.r.t. the largest reference magnitude)
+SMOOTH = {
+  "qfrc_spring": ("passive.passive", 2e-4), "qfrc_damper": ("passive.passive", 2e-4), "qfrc_gravcomp": ("passive.passive", 2e-4), "qfrc_passive": ("passive.passive", 2e-4),
+  "qfrc_bias": ("smooth.rne", 2e-4), "actuator_force": ("forward.fwd_actuation", 2e-4), "qfrc_actuator": ("forward.fwd_actuation", 2e-4), "act_dot": ("forward.fwd_actuation", 2e-4),
+  "qfrc_smooth": ("forward.fwd_acceleration", 2e-4), "qacc_smooth": ("forward.fwd_acceleration", 5e-3),
+}
+SITE = {"energy": "sensor.energy", "sensordata-posvel": "sensor.sensor_pos/vel", "sensordata-acc": "sensor.sensor_acc", "qacc": "forward.forward", "qfrc_constraint": "forward.forward",
+        "efc-count": "constraint.make_constraint", "efc-aref": "constraint.make_constraint", "efc-D": "constraint.make_constraint"}
+NONCONTACT_TYPES = ("EQUALITY", "FRICTION_DOF", "FRICTION_TENDON", "LIMIT_JOINT", "LIMIT_TENDON")
+
+
+def _find(acc, what, site, trigger_id, **kw):
+  """at most 4 witnesses per trigger id and run (the rest is counted): one faulty flag test shows up on most models"""
+  if sum(1 for f in acc.findings if f["trigger_id"] == trigger_id) >= 4:
+    acc.hit("further-witnesses:" + trigger_id)
+    return
+  acc.find(what, site, trigger_id, **kw)
+
+
+def _bits(mujoco, flags):
+  return int(sum(int(getattr(mujoco.mjtDisableBit, "mjDSBL_" + f.upper())) for f in flags))
+
+
+def _template(rng, c, integ, poly):
+  """MJCF without a <flag> element; '@SPR@' stands for the springlength attribute of the fixed tendon (filled once its length is known)."""
+  from harness.gen import models
+  wb, sp = models.random_tree(rng, nbody=int(rng.integers(2, 5)), geom_types=["sphere", "capsule", "box"], spread=0.35, sites=True, joint_types=("free", "hinge", "slide"))
+  hj = [j for j, t in sp.joint_types.items() if t in ("hinge", "slide")]
+  act, sens, eq, tend = [], [], [], []
+  if c % 2 == 0:
+    sens += ["<e_potential/>", "<e_kinetic/>"]     # energy evaluated by the sensor stage (forward._energy_pos then skips it) vs by forward itself
+  if hj:
+    j0, j1 = hj[0], (hj[1] if len(hj) > 1 else None)
+    act += [f'<motor joint="{j0}" ctrllimited="true" ctrlrange="-0.5 0.5"/>', f'<position joint="{j0}" kp="4" kv="0.5"/>']
+    sens += [f'<jointpos joint="{j0}"/>', f'<jointvel joint="{j0}"/>', f'<jointactuatorfrc joint="{j0}"/>']
+    if sp.joint_types[j0] == "hinge":
+      sens.append(f'<jointlimitfrc joint="{j0}"/>')
+    kt = "60 20 10" if poly else "60"
+    bt = "0.4 0.2 0.1" if poly else "0.4"
+    tend.append(f'<fixed name="tf" stiffness="{kt}" damping="{bt}" @SPR@ limited="true" range="{'-0.1 0.1' if c % 4 == 0 else '-0.45 0.45'}" frictionloss="0.05"><joint joint="{j0}" coef="1"/>'
+                + (f'<joint joint="{j1}" coef="-0.5"/>' if j1 else "") + "</fixed>")
+    sens += ['<tendonpos tendon="tf"/>', '<tendonvel tendon="tf"/>', '<tendonlimitfrc tendon="tf"/>']
+    if c % 3 == 1:
+      act.append('<motor tendon="tf" gear="0.5"/>')
+      sens.append('<tendonactuatorfrc tendon="tf"/>')
+    if c % 3 == 2:
+      act.append(f'<general joint="{hj[-1]}" dyntype="filter" dynprm="0.2" gainprm="3"/>')
+    sens.append('<actuatorfrc actuator="a0"/>')
+    if c % 3 == 0 and j1:
+      eq.append(f'<joint joint1="{j0}" joint2="{j1}" polycoef="0.05 0.8 0 0 0"/>')
+    if c % 3 == 1:
+      eq.append('<tendon tendon1="tf" polycoef="0.1 0 0 0 0"/>')
+  if len(sp.sites) >= 2:
+    tend.append(f'<spatial name="ts" stiffness="25" damping="0.3" springlength="0.05 0.1"><site site="{sp.sites[0]}"/><site site="{sp.sites[-1]}"/></spatial>')
+    sens.append('<tendonpos tendon="ts"/>')
+  if sp.sites:
+    sens.append(f'<accelerometer site="{sp.sites[0]}"/>')
+  if len(sp.bodies) >= 2 and c % 3 != 1:
+    eq.append(f'<connect body1="{sp.bodies[0]}" body2="{sp.bodies[1]}" anchor="0 0 0"{' solref="0.005 1"' if c % 2 == 1 else ''}/>')
+  if act:
+    act[0] = act[0].replace("<motor ", '<motor name="a0" ', 1)
+  extra = ("<tendon>" + "".join(tend) + "</tendon>" if tend else "") + ("<actuator>" + "".join(act) + "</actuator>" if act else "") \
+      + ("<sensor>" + "".join(sens) + "</sensor>" if sens else "") + ("<equality>" + "".join(eq) + "</equality>" if eq else "")
+  xml = models.wrap(wb, option=f'timestep="0.004" integrator="{integ}" iterations="100" tolerance="1e-10"', extra=extra)
+  # linear or polynomial (k k1 k2 / b b1 b2) joint stiffness and damping: the SPRING / DAMPER bits must gate all coefficients
+  xml = xml.replace('type="hinge"', 'type="hinge" ' + ('damping="0.3 0.2 0.1" stiffness="1.5 0.8 0.4"' if poly else 'damping="0.3" stiffness="1.5"')
+                    + ' springref="0.2" frictionloss="0.1" limited="true" range="' + ("-0.15 0.15" if c % 2 == 0 else "-0.6 0.6") + '"' + (' actuatorgravcomp="true"' if c % 4 == 1 else "")
+                    + (' solreflimit="0.005 1"' if c % 2 == 0 else ""))   # time constant below 2*timestep: REFSAFE changes aref of the limit rows
+  if poly:
+    xml = xml.replace('type="slide"', 'type="slide" damping="0 0.3 0" stiffness="0 0 2.0"')   # polynomial terms only, zero linear coefficient
+  if c % 2 == 1 and len(sp.bodies) >= 2:
+    xml = xml.replace(f'<body name="{sp.bodies[-1]}"', f'<body name="{sp.bodies[-1]}" gravcomp="0.7"', 1)
+  return xml, bool(hj)
+
+
+def _set_state(md, st):
+  md.qpos[:], md.qvel[:], md.ctrl[:], md.act[:] = st
+
+
+def _pairs(mjd_or_none, d=None):
+  if d is not None:
+    n = int(d.nacon.numpy()[0])
+    return sorted(tuple(sorted(map(int, g))) for g in d.contact.geom.numpy()[:n])
+  return sorted(tuple(sorted((int(c.geom1), int(c.geom2)))) for c in mjd_or_none.contact)
+
+
+def _outputs(mujoco, mjm, md, d, stage_masks):
+  """name -> (mujoco_warp value, MuJoCo value, relative tolerance); only outputs whose comparison is meaningful for this evaluation"""
+  w = lambda a: a.numpy()[0]
+  out = {}
+  for nm, (_, tol) in SMOOTH.items():
+    b = np.asarray(getattr(md, nm))
+    if b.size:
+      out[nm] = (w(getattr(d, nm)), b, tol)
+  out["energy"] = (w(d.energy), np.asarray(md.energy), 5e-5)
+  sd_w, sd_m = w(d.sensordata), np.asarray(md.sensordata)
+  posvel, accm = stage_masks
+  if posvel.any():
+    out["sensordata-posvel"] = (sd_w[posvel], sd_m[posvel], 2e-4)
+  # constraint rows by type (row order is not part of the contract: multisets)
+  nefc = int(d.nefc.numpy()[0])
+  tw, aw, Dw = w(d.efc.type)[:nefc], w(d.efc.aref)[:nefc], w(d.efc.D)[:nefc]
+  tm, am, Dm = np.asarray(md.efc_type), np.asarray(md.efc_aref), np.asarray(md.efc_D)
+  cnt_w = np.array([float((tw == int(getattr(mujoco.mjtConstraint, "mjCNSTR_" + x))).sum()) for x in NONCONTACT_TYPES])
+  cnt_m = np.array([float((tm == int(getattr(mujoco.mjtConstraint, "mjCNSTR_" + x))).sum()) for x in NONCONTACT_TYPES])
+  out["efc-count"] = (cnt_w, cnt_m, 0.0)
+  same_rows = bool((cnt_w == cnt_m).all())
+  if same_rows and cnt_m.sum():
+    sel_w = np.concatenate([np.nonzero(tw == int(getattr(mujoco.mjtConstraint, "mjCNSTR_" + x)))[0] for x in NONCONTACT_TYPES])
+    sel_m = np.concatenate([np.nonzero(tm == int(getattr(mujoco.mjtConstraint, "mjCNSTR_" + x)))[0] for x in NONCONTACT_TYPES])
+    # sorted within each type (the types are laid out in the same order on both sides)
+    key = lambda t, v: np.lexsort((v, t))
+    out["efc-aref"] = (aw[sel_w][key(tw[sel_w], aw[sel_w])], am[sel_m][key(tm[sel_m], am[sel_m])], 2e-3)
+    out["efc-D"] = (Dw[sel_w][key(tw[sel_w], Dw[sel_w])], Dm[sel_m][key(tm[sel_m], Dm[sel_m])], 2e-3)
+  # everything downstream of the solver: only if both sides see the same contacts (which pairs and how many points: C04's business otherwise)
+  if _pairs(md) == _pairs(None, d) and same_rows:
+    out["qacc"] = (w(d.qacc), np.asarray(md.qacc), 5e-3)
+    out["qfrc_constraint"] = (w(d.qfrc_constraint), np.asarray(md.qfrc_constraint), 5e-3)
+    if accm.any():
+      out["sensordata-acc"] = (sd_w[accm], sd_m[accm], 5e-3)
+  return out
+
+
+def _abserr(a, b):
+  a, b = np.asarray(a, dtype=np.float64), np.asarray(b, dtype=np.float64)
+  if a.shape != b.shape:
+    return None
+  with np.errstate(invalid="ignore"):
+    e = np.abs(a - b)
+  return np.where(np.isfinite(e), e, np.inf)
+
+
+def _differs(a, b, tol, e0=None):
+  """(differs, max excess error). Elementwise |a - b| > tol * (1 + largest reference magnitude + |b|) + 3 * e0, where e0 is the error of the
+  same output with NO flag changed: a deviation from MuJoCo that is there without any flag is not a flag effect (it belongs to another
+  property) and must neither alarm here nor straddle the tolerance."""
+  e = _abserr(a, b)
+  if e is None:
+    return True, float("inf")
+  if not e.size:
+    return False, 0.0
+  b = np.abs(np.asarray(b, dtype=np.float64))
+  lim = tol * (1.0 + float(b.max())) + tol * b
+  if e0 is not None:
+    if e0.shape != e.shape:
+      if (e0 > 0.25 * tol * (1.0 + float(b.max()))).any():
+        return False, 0.0     # the row set changed under the flags and the rows already disagreed with no flag: nothing to attribute to the flags
+    else:
+      lim = lim + 3.0 * e0
+  bad = ~(e <= lim)
+  return bool(bad.any()), (float(e[bad].max()) if bad.any() else 0.0)
+
+
+def _sweep(acc, rng, c, mujoco, mjw, mjm0, st, xml0):
+  """forward-level flag matrix on one model: flags are toggled on the existing Model / mjModel, the state is fixed"""
+  m0 = mjw.put_model(mjm0)
+  md = mujoco.MjData(mjm0)
+  _set_state(md, st)
+  mujoco.mj_forward(mjm0, md)
+  d = mjw.put_data(mjm0, md, nworld=1, naconmax=200, njmax=400)
+  ENERGY = int(mujoco.mjtEnableBit.mjENBL_ENERGY)
+  ns = mjm0.nsensordata
+  posvel, accm = np.zeros(ns, bool), np.zeros(ns, bool)
+  for s in range(mjm0.nsensor):
+    sl = slice(mjm0.sensor_adr[s], mjm0.sensor_adr[s] + mjm0.sensor_dim[s])
+    (accm if mjm0.sensor_needstage[s] == mujoco.mjtStage.mjSTAGE_ACC else posvel)[sl] = True
+  has_esens = any(int(t) in (int(mujoco.mjtSensor.mjSENS_E_POTENTIAL), int(mujoco.mjtSensor.mjSENS_E_KINETIC)) for t in mjm0.sensor_type)
+  # subsets: baseline first, then every subset of the passive group, odd ones crossed with one other flag in rotation (+ a random one)
+  # baselines: no flag changed; a second one without contacts gives the solver-dependent outputs a baseline when the two collision stages
+  # disagree on the number of contact points (C04's business)
+  subsets = [([], True), (["contact"], True)]
+  nbase = 2
+  for i in range(8):
+    fl = [f for b, f in enumerate(SWEEP_PASSIVE) if (i >> b) & 1]
+    if i % 2 == 1 or i == 0:
+      fl.append(SWEEP_OTHERS[(c * 5 + i // 2) % len(SWEEP_OTHERS)])
+    if rng.random() < 0.3:
+      fl.append(str(rng.choice(SWEEP_OTHERS)))
+    subsets.append((sorted(set(fl)), (c + i) % 4 != 3))
+  base, reported = {}, set()
+  # vacuity record: does each flag change anything in the REFERENCE on this model and state (a flag without effect tests nothing)
+  ref_fields = ("qfrc_passive", "qfrc_bias", "qfrc_actuator", "act_dot", "energy", "sensordata", "qacc", "efc_aref")
+  def ref_eval(dis, en):
+    mjm0.opt.disableflags, mjm0.opt.enableflags = dis, en
+    x = mujoco.MjData(mjm0)
+    _set_state(x, st)
+    x.sensordata[:] = 0.123
+    mujoco.mj_forward(mjm0, x)
+    return [np.array(getattr(x, f)) for f in ref_fields]
+  r0 = ref_eval(0, ENERGY)
+  for f in SWEEP_PASSIVE + SWEEP_OTHERS:
+    r1 = ref_eval(_bits(mujoco, [f]), ENERGY)
+    if any(u.shape != v.shape or not np.allclose(u, v, rtol=1e-6, atol=1e-9) for u, v in zip(r0, r1)):
+      acc.hit("flag-changes-reference:" + f)
+  if any(not np.allclose(u, v) for u, v in zip(r0, ref_eval(0, 0))):
+    acc.hit("flag-changes-reference:energy")
+  for k, (fl, energy) in enumerate(subsets):
+    if k == 1 and "qacc" in base:
+      continue
+    dis, en = _bits(mujoco, fl), (ENERGY if energy else 0)
+    mjm0.opt.disableflags, mjm0.opt.enableflags = dis, en
+    m0.opt.disableflags, m0.opt.enableflags = dis, en
+    # sentinels: a stage that is skipped under a flag must leave its outputs exactly as MuJoCo does
+    # (fresh mjData: MuJoCo 3.13 evaluates energies lazily through mjData.flg_energypos/flg_energyvel, which makes a re-used mjData
+    # return stale e_kinetic values after the energy flag was toggled; that is no business of the code under test)
+    sent = rng.normal(size=ns)
+    md = mujoco.MjData(mjm0)
+    _set_state(md, st)
+    md.sensordata[:] = sent
+    md.energy[:] = (3.25, -1.5)
+    if ns:
+      d.sensordata.assign(sent[None].astype(np.float32))
+    d.energy.assign(np.array([[3.25, -1.5]], dtype=np.float32))
+    mujoco.mj_forward(mjm0, md)
+    mjw.forward(m0, d)
+    out = _outputs(mujoco, mjm0, md, d, (posvel, accm))
+    if "sensor" in fl and ns and not d.sensordata.numpy().any():
+      # exact signature of a deviation of the unchanged code that is not a wrong flag test: forward() clears sensordata before the (skipped) sensor
+      # stage, MuJoCo keeps the previous values. Anything else than all-zero is compared with MuJoCo (the sentinel must survive).
+      out.pop("sensordata-posvel", None)
+      out.pop("sensordata-acc", None)
+      acc.hit("sweep:sensor-disabled:sensordata-all-zero(MuJoCo-keeps-previous)")
+    if not energy and has_esens and "sensor" not in fl:
+      out.pop("energy")   # recorded deviation C07-energy-flag-off (d.energy zeroed after the sensor evaluated it); sensordata is still compared
+      acc.hit("sweep:energy-off-with-energy-sensor:d.energy-not-compared")
+    acc.evals += 1
+    for nm, (a, b, tol) in out.items():
+      if k < nbase:
+        if nm not in base:
+          base[nm] = _abserr(a, b)
+          if base[nm] is None:
+            base[nm] = np.full(1, np.inf)
+          if _differs(a, b, tol)[0]:
+            acc.hit("sweep:baseline-mismatch-elements-excluded:" + nm)
+        continue
+      if nm not in base:
+        acc.hit("sweep:no-baseline-not-compared:" + nm)
+        continue
+      bad, err = _differs(a, b, tol, base[nm])
+      if not bad:
+        continue
+      if nm in reported:
+        continue
+      reported.add(nm)
+      site = SMOOTH[nm][0] if nm in SMOOTH else SITE[nm]
+      _find(acc, f"forward() with disabled={fl} energy={energy}: {nm} differs from mj_forward with the same flags (max |d| {err:.3g}, reference magnitude {float(np.abs(b).max()) if np.size(b) else 0:.3g}; "
+               f"agrees with no flag changed): here {np.asarray(a).round(5).tolist()[:8]} MuJoCo {np.asarray(b).round(5).tolist()[:8]}", site, "flags-forward-" + nm,
+               xml=xml0, flags=fl, energy=bool(energy), toggled_on_model=True, qpos=st[0].tolist(), qvel=st[1].tolist(), ctrl=st[2].tolist(), act=st[3].tolist())
+    if k >= nbase:
+      acc.distinct.add(("fw",) + tuple(fl) + (energy,))
+      for f in fl:
+        acc.hit("sweep:" + f)
+      if energy:
+        acc.hit("sweep:energy")
+      if energy and "spring" in fl and mjm0.ntendon:
+        acc.hit("sweep:energy+spring-disabled+tendon-model")
+  mjm0.opt.disableflags, mjm0.opt.enableflags = 0, 0
 
 
 def _run(ctx, ncases):
@@ -30,60 +303,71 @@ def _run(ctx, ncases):
       # exactly one of the two passive-force bits (with both set passive() returns early on the host: a different code path)
       one = str(rng.choice(["spring", "damper"]))
       flags = sorted(set(f for f in flags if f not in ("spring", "damper")) | {one})
-    energy = rng.random() < 0.3
+    energy = rng.random() < 0.3 or c % 3 == 0
     integ = str(rng.choice(["Euler", "implicitfast"]))
-    wb, sp = models.random_tree(rng, nbody=int(rng.integers(2, 5)), geom_types=["sphere", "capsule", "box"], spread=0.35, sites=True, joint_types=("free", "hinge", "slide"))
-    hj = [j for j, t in sp.joint_types.items() if t in ("hinge", "slide")]
-    extra = ""
-    if hj:
-      extra = f'<actuator><motor joint="{hj[0]}" ctrllimited="true" ctrlrange="-0.5 0.5"/><position joint="{hj[0]}" kp="4" kv="0.5"/></actuator><sensor><jointpos joint="{hj[0]}"/><jointvel joint="{hj[0]}"/></sensor>'
-    if len(sp.bodies) >= 2:
-      extra += f'<equality><connect body1="{sp.bodies[0]}" body2="{sp.bodies[1]}" anchor="0 0 0"/></equality>'
-    flagxml = "<option><flag " + " ".join(f'{f}="disable"' for f in flags) + (' energy="enable"' if energy else "") + "/></option>"
-    xml = models.wrap(wb, option=f'timestep="0.004" integrator="{integ}" iterations="100" tolerance="1e-10"', extra=extra).replace("<option ", flagxml + "\n  <option ", 1)
-    # linear or polynomial (k k1 k2 / b b1 b2) joint stiffness and damping: the SPRING / DAMPER bits must gate all coefficients
     poly = rng.random() < 0.5 or (('spring' in flags) != ('damper' in flags))
-    xml = xml.replace('type="hinge"', 'type="hinge" ' + ('damping="0.3 0.2 0.1" stiffness="1.5 0.8 0.4"' if poly else 'damping="0.3" stiffness="1.5"')
-                      + ' springref="0.2" frictionloss="0.1" limited="true" range="-0.6 0.6"')
-    if poly:
-      xml = xml.replace('type="slide"', 'type="slide" damping="0 0.3 0" stiffness="0 0 2.0"')   # polynomial terms only, zero linear coefficient
+    tmpl, has_tf = _template(rng, c, integ, poly)
     try:
-      mjm = mujoco.MjModel.from_xml_string(xml)
+      mjm0 = mujoco.MjModel.from_xml_string(tmpl.replace("@SPR@", ""))
     except ValueError as e:
+      acc.hit("mjcf-rejected")
       continue
-    mjd = mujoco.MjData(mjm)
-    models.random_state(rng, mjm, mjd, qpos_scale=0.3, qvel_scale=1.0, unnormalized=False)
-    for j in range(mjm.njnt):
-      if mjm.jnt_type[j] == 0:
-        mjd.qpos[mjm.jnt_qposadr[j] + 2] = rng.uniform(0.05, 0.3)
-    mjd.ctrl[:] = rng.normal(size=mjm.nu) * 2
+    mjd = mujoco.MjData(mjm0)
+    models.random_state(rng, mjm0, mjd, qpos_scale=0.3, qvel_scale=1.0, unnormalized=False)
+    for j in range(mjm0.njnt):
+      if mjm0.jnt_type[j] == 0:
+        mjd.qpos[mjm0.jnt_qposadr[j] + 2] = rng.uniform(0.05, 0.3)
+    mjd.ctrl[:] = rng.normal(size=mjm0.nu) * 2
+    mjd.act[:] = rng.normal(size=mjm0.na)
+    st = (mjd.qpos.copy(), mjd.qvel.copy(), mjd.ctrl.copy(), mjd.act.copy())
+    rep = dict(qpos=st[0].tolist(), qvel=st[1].tolist(), ctrl=st[2].tolist(), act=st[3].tolist())
+    spr = ""
+    if has_tf:
+      # dead band of the fixed tendon spring relative to the current length L: stretched / compressed / rest length 0 (default) / inside the band (no spring force, no energy)
+      mujoco.mj_forward(mjm0, mjd)
+      L = float(mjd.ten_length[mujoco.mj_name2id(mjm0, mujoco.mjtObj.mjOBJ_TENDON, "tf")])
+      mode = c % 4
+      spr = {0: f'springlength="{L - 0.4:.4f} {L - 0.3:.4f}"', 1: f'springlength="{L + 0.25:.4f} {L + 0.35:.4f}"', 2: "", 3: f'springlength="{L - 0.1:.4f} {L + 0.1:.4f}"'}[mode]
+      acc.hit(("tendon-spring:stretched", "tendon-spring:compressed", "tendon-spring:rest-length-0", "tendon-spring:inside-dead-band")[mode])
+    xml0 = tmpl.replace("@SPR@", spr)
+    flagxml = "<option><flag " + " ".join(f'{f}="disable"' for f in flags) + (' energy="enable"' if energy else "") + "/></option>"
+    xml = xml0.replace("<option ", flagxml + "\n  <option ", 1)
+    mjm0 = mujoco.MjModel.from_xml_string(xml0)
+    mjm = mujoco.MjModel.from_xml_string(xml)
     try:
       m = mjw.put_model(mjm)
     except Exception as e:
       acc.hit("rejected:" + type(e).__name__)
       continue
+    for nm, n in (("ntendon", mjm0.ntendon), ("na", mjm0.na), ("neq", mjm0.neq), ("gravcomp", int((mjm0.body_gravcomp != 0).sum())), ("actgravcomp", int(mjm0.jnt_actgravcomp.sum()))):
+      if n:
+        acc.hit("model:" + nm)
+
+    # (b) forward-level flag matrix on the flag-free model
+    _sweep(acc, rng, c, mujoco, mjw, mjm0, st, xml0)
+
+    # (a) one step with the flags given in the MJCF (put_model sees them: FILTERPARENT etc.)
+    mjd = mujoco.MjData(mjm)
+    _set_state(mjd, st)
     # cvel/cdof_dot must be consistent with the state: the connect/weld builders read them before fwd_velocity
     # recomputes them (known finding C12-stale-cvel); mj_forward makes put_data copy current values
     mujoco.mj_forward(mjm, mjd)
     d = mjw.put_data(mjm, mjd, nworld=1, naconmax=200, njmax=400)
     mjw.step(m, d)
     ref = mujoco.MjData(mjm)
-    ref.qpos[:], ref.qvel[:], ref.ctrl[:] = mjd.qpos, mjd.qvel, mjd.ctrl
+    _set_state(ref, st)
     mujoco.mj_step(mjm, ref)
     acc.evals += 1
     acc.distinct.add(tuple(flags) + (energy, integ))
     # baseline: the same model and state with NO flag changed must agree with MuJoCo, otherwise the mismatch is not
     # about flags (it belongs to C08/C05) and the case is skipped here
-    import re as _re
-    xml0 = _re.sub(r"<option><flag [^>]*/></option>", "", xml)
-    mjm0 = mujoco.MjModel.from_xml_string(xml0)
     md0 = mujoco.MjData(mjm0)
-    md0.qpos[:], md0.qvel[:], md0.ctrl[:] = mjd.qpos, mjd.qvel, mjd.ctrl
+    _set_state(md0, st)
     mujoco.mj_forward(mjm0, md0)
     d0 = mjw.put_data(mjm0, md0, nworld=1, naconmax=200, njmax=400)
     mjw.step(mjw.put_model(mjm0), d0)
     r0 = mujoco.MjData(mjm0)
-    r0.qpos[:], r0.qvel[:], r0.ctrl[:] = mjd.qpos, mjd.qvel, mjd.ctrl
+    _set_state(r0, st)
     mujoco.mj_step(mjm0, r0)
     if not np.allclose(d0.qvel.numpy()[0], r0.qvel, rtol=2e-3, atol=2e-3 * (1 + np.abs(r0.qvel).max())):
       acc.hit("baseline-mismatch-skipped")
@@ -94,30 +378,38 @@ def _run(ctx, ncases):
     pairs_w = {tuple(sorted(map(int, g))) for g in d.contact.geom.numpy()[:nc_w]}
     pairs_m = {tuple(sorted((int(c.geom1), int(c.geom2)))) for c in ref.contact}
     if pairs_w != pairs_m:
-      acc.find(f"with flags disabled={flags}: colliding geom pairs differ from mj_step: only here {sorted(pairs_w - pairs_m)[:4]}, only MuJoCo {sorted(pairs_m - pairs_w)[:4]}", "collision_driver",
-               "flags-contact-pairs", xml=xml, flags=flags)
+      _find(acc, f"with flags disabled={flags}: colliding geom pairs differ from mj_step: only here {sorted(pairs_w - pairs_m)[:4]}, only MuJoCo {sorted(pairs_m - pairs_w)[:4]}", "collision_driver",
+               "flags-contact-pairs", xml=xml, flags=flags, **rep)
       continue
     if nc_w != int(ref.ncon):
       acc.hit("contact-multiplicity-differs:dynamics-comparison-skipped")
       continue
-    for nm, a, b in (("qpos", d.qpos.numpy()[0], ref.qpos), ("qvel", d.qvel.numpy()[0], ref.qvel), ("sensordata", d.sensordata.numpy()[0], ref.sensordata)):
-      scale = 1 + np.abs(b).max() if b.size else 1
-      if b.size and not np.allclose(a, b, rtol=2e-3, atol=2e-3 * scale):
-        acc.find(f"with flags disabled={flags} energy={energy} ({integ}): {nm} after one step differs from mj_step (max |d| {np.abs(a - b).max():.3g})", "forward.step", "flags-vs-mujoco",
-                 xml=xml, flags=flags)
+    # errors that are there with no flag changed are not a flag effect (e.g. accelerometer on a static body, implicitfast on fast-spinning free bodies): 3x slack
+    for nm, a, b, a0, b0 in (("qpos", d.qpos, ref.qpos, d0.qpos, r0.qpos), ("qvel", d.qvel, ref.qvel, d0.qvel, r0.qvel), ("act", d.act, ref.act, d0.act, r0.act),
+                             ("sensordata", d.sensordata, ref.sensordata, d0.sensordata, r0.sensordata)):
+      e0 = _abserr(a0.numpy()[0], b0)
+      if _differs(a0.numpy()[0], b0, 2e-3)[0]:
+        acc.hit("baseline-mismatch-elements-slack:" + nm)
+      bad, err = _differs(a.numpy()[0], b, 2e-3, e0)
+      if bad:
+        _find(acc, f"with flags disabled={flags} energy={energy} ({integ}): {nm} after one step differs from mj_step (max |d| {err:.3g})", "forward.step", "flags-vs-mujoco",
+                 xml=xml, flags=flags, **rep)
         break
     if energy:
       e = d.energy.numpy()[0]
-      if not np.allclose(e, ref.energy, rtol=2e-3, atol=2e-3 * (1 + np.abs(ref.energy).max())):
-        acc.find(f"energy {e.tolist()} vs MuJoCo {ref.energy.tolist()} with flags {flags}", "sensor.energy", "energy-vs-mujoco", xml=xml, flags=flags)
+      if not np.allclose(e, ref.energy, rtol=1e-4, atol=1e-4 * (1 + np.abs(ref.energy).max())):
+        _find(acc, f"energy {e.tolist()} vs MuJoCo {ref.energy.tolist()} after one step with flags {flags}", "sensor.energy", "energy-vs-mujoco", xml=xml, flags=flags, **rep)
     for f in flags:
       acc.hit(f)
     acc.sample({"disabled": flags, "energy": energy, "integrator": integ})
   return acc
 
 
-RULE = ("random trees over a floor with a clamped motor, a position actuator, sensors, a connect equality, springs/dampers/friction loss/limits; a random subset (0-3) of 15 disable flags and "
-        "energy enable; one step vs mujoco.mj_step (qpos, qvel, sensordata, energy; tolerance 2e-3); distinct = distinct flag sets")
+RULE = ("random trees over a floor with joint springs/dampers (linear and polynomial)/friction loss/limits, a fixed tendon (spring with dead band placed stretched/compressed/at rest/inside in rotation, damper, "
+        "limit, friction loss) and a spatial tendon spring, gravcomp / actuatorgravcomp, clamped motor, position, tendon and filter-activation actuators, joint/tendon/actuator/energy/accelerometer sensors, "
+        "connect/joint/tendon equalities. (a) a random subset (0-3) of 15 disable flags and energy enable given in the MJCF; one step vs mujoco.mj_step (qpos, qvel, act, sensordata tolerance 2e-3; energy 1e-4). "
+        "(b) per model all 8 subsets of {spring, damper, gravity} x one of 11 other flags in rotation x energy on/off toggled on the Model: forward vs mujoco.mj_forward on every passive/actuator/bias force "
+        "component, energy, sentinel-filled sensordata, constraint rows per type, qacc; outputs disagreeing with no flag set are excluded; distinct = distinct flag sets")
 
 
 def correspondence(ctx):
@@ -127,4 +419,4 @@ def correspondence(ctx):
 
 def search(ctx, breaks):
   acc = _run(ctx, 120)
-  return search_result(acc, "mujoco.mj_step with the same flags")
+  return search_result(acc, "mujoco.mj_step / mujoco.mj_forward with the same flags")
